@@ -232,12 +232,41 @@ def contribsH (j : Json) : R Json := do
   return jObj [("propagate", jo (propagateArgs path tx0)),
                ("loop", jList jo (loopArgs (roadmOsnr path) txs))]
 
+def getPT (s : String) : R Gnpy.Roadm.PType :=
+  match s with
+  | "express" => pure .express
+  | "add" => pure .add
+  | "drop" => pure .drop
+  | _ => throw s!"bad path type {s}"
+
+def getBand (j : Json) : R (Gnpy.Roadm.Band Float) := do
+  match ← getArr j with
+  | [lo, hi, v] => return { lo := ← getOpt getF lo, hi := ← getF hi, value := ← getOpt getF v }
+  | _ => throw "band = [lo|null, hi, value|null]"
+
+def getCrossing (j : Json) : R (Crossing Float) := do
+  let ps ← fList (fun p => do
+    return ({ id := ← fNat p "id", ptype := ← getPT (← fStr p "ptype"), bands := ← fList getBand p "bands" } :
+      Gnpy.Roadm.Profile Float)) j "profiles"
+  return { profiles := ps, user := ← fOpt getNat j "user", ptype := ← getPT (← fStr j "ptype"),
+           addDropOsnr := ← fF j "add_drop_osnr" }
+
+/-- per carrier: the arguments of the receiver's update_snr built from the ROADM crossings of the path -/
+def crossingsH (j : Json) : R Json := do
+  let cs ← fList getCrossing j "crossings"
+  let freqs ← fList getF j "freqs"
+  let tx ← fF j "tx_osnr"
+  let out := freqs.map (fun f => match receiverArgs cs f tx with
+    | .ok l => jList (jOpt jF) l
+    | .error e => jStr e)
+  return Json.arr out.toArray
+
 def requestCheckH (j : Json) : R Json := do
   return jOpt jStr (requestCheck (← fBool j "trx_known") (← fBool j "mode_given") (← fBool j "mode_found")
     (← fInt j "baud") (← fInt j "min_spacing") (← fInt j "spacing"))
 
 def handlers : List (String × Handler) :=
-  [("c13.request_check", requestCheckH), ("c13.update_snr", updateSnrH), ("c13.calc_penalties", calcPenaltiesH), ("c13.normalise", normaliseH),
+  [("c13.crossings", crossingsH), ("c13.request_check", requestCheckH), ("c13.update_snr", updateSnrH), ("c13.calc_penalties", calcPenaltiesH), ("c13.normalise", normaliseH),
    ("c13.fixed", fixedH), ("c13.select", selectH), ("c13.auto_reason", autoReasonH), ("c13.contribs", contribsH)]
 
 end Gnpy.Drv.C13
